@@ -195,13 +195,21 @@ bool StringMatcher :: Match(const char * const str) const
    {
       if (_flags.IsBitSet(STRINGMATCHER_FLAG_REGEXVALID)) ret = (regexec(&_regExp, str, 0, NULL, 0) != REG_NOMATCH);
    }
-   else if (muscleInRange(str[0], '0', '9'))
+   else
    {
-      const uint32 id = (uint32) Atoull(str);
-      for (uint32 i=0; i<_ranges.GetNumItems(); i++)
+      // A range pattern matches only strings that are decimal numbers from their first char to their last (so "<5-7>" doesn't match "6x").
+      // A number too large for a uint32 is clamped to MUSCLE_NO_LIMIT rather than wrapped around, so that it can still
+      // match an open-ended range like "<21->", but is never mistaken for a small number.
+      uint64 id = 0;
+      const char * s = str;
+      while(muscleInRange(*s, '0', '9')) {id = muscleMin((id*10)+((uint64)(*s-'0')), (uint64)MUSCLE_NO_LIMIT); s++;}
+      if ((s > str)&&(*s == '\0'))
       {
-         const IDRange & r = _ranges[i];
-         if (muscleInRange(id, r.GetMin(), r.GetMax())) {ret = true; break;}
+         for (uint32 i=0; i<_ranges.GetNumItems(); i++)
+         {
+            const IDRange & r = _ranges[i];
+            if (muscleInRange((uint32)id, r.GetMin(), r.GetMax())) {ret = true; break;}
+         }
       }
    }
 
